@@ -304,8 +304,10 @@ RCP<const Set> Complexes::set_union(const RCP<const Set> &o) const
         return complexes();
     } else if (is_a<FiniteSet>(*o)) {
         return (*o).set_union(rcp_from_this_cast<const Set>());
+    } else if (is_a<Union>(*o) or is_a<UniversalSet>(*o)) {
+        return (*o).set_union(rcp_from_this_cast<const Set>());
     } else {
-        return SymEngine::set_union({rcp_from_this_cast<const Set>(), o});
+        return make_set_union({rcp_from_this_cast<const Set>(), o});
     }
 }
 
@@ -381,8 +383,10 @@ RCP<const Set> Reals::set_union(const RCP<const Set> &o) const
         return reals();
     } else if (is_a<FiniteSet>(*o) or is_a<Complexes>(*o)) {
         return (*o).set_union(rcp_from_this_cast<const Set>());
+    } else if (is_a<Union>(*o) or is_a<UniversalSet>(*o)) {
+        return (*o).set_union(rcp_from_this_cast<const Set>());
     } else {
-        return SymEngine::set_union({rcp_from_this_cast<const Set>(), o});
+        return make_set_union({rcp_from_this_cast<const Set>(), o});
     }
 }
 
@@ -446,6 +450,8 @@ RCP<const Set> Rationals::set_intersection(const RCP<const Set> &o) const
         return o;
     } else if (is_a<FiniteSet>(*o) or is_a<Reals>(*o) or is_a<Complexes>(*o)) {
         return (*o).set_intersection(rcp_from_this_cast<const Set>());
+    } else if (is_a<Interval>(*o)) {
+        return make_set_intersection({rcp_from_this_cast<const Set>(), o});
     } else {
         return SymEngine::set_intersection(
             {rcp_from_this_cast<const Set>(), o});
@@ -459,8 +465,10 @@ RCP<const Set> Rationals::set_union(const RCP<const Set> &o) const
         return rationals();
     } else if (is_a<FiniteSet>(*o) or is_a<Reals>(*o) or is_a<Complexes>(*o)) {
         return (*o).set_union(rcp_from_this_cast<const Set>());
+    } else if (is_a<Union>(*o) or is_a<UniversalSet>(*o)) {
+        return (*o).set_union(rcp_from_this_cast<const Set>());
     } else {
-        return SymEngine::set_union({rcp_from_this_cast<const Set>(), o});
+        return make_set_union({rcp_from_this_cast<const Set>(), o});
     }
 }
 
